@@ -16,6 +16,7 @@ import (
 	netv1beta1 "k8s.io/api/networking/v1beta1"
 	metav1 "k8s.io/apimachinery/pkg/apis/meta/v1"
 	"k8s.io/apimachinery/pkg/runtime"
+	"k8s.io/apimachinery/pkg/types"
 )
 
 // Spec is the abstract description of one API object version.
@@ -29,6 +30,7 @@ type Spec struct {
 	Sel  map[string]string `json:"sel,omitempty"`
 	Refs []string          `json:"refs,omitempty"`
 	Kind string            `json:"kind,omitempty"` // overrides the server's kind (foreign-typed objects)
+	UID  string            `json:"uid,omitempty"`  // metadata.uid: one per incarnation of a key (the server assigns it)
 }
 
 func (s Spec) Key() string { return s.NS + "/" + s.Name }
@@ -117,7 +119,8 @@ func SameIDs(a, b []string) bool {
 }
 
 func meta(s Spec) metav1.ObjectMeta {
-	return metav1.ObjectMeta{Namespace: s.NS, Name: s.Name, ResourceVersion: s.RV, Labels: copyMap(s.Labels)}
+	// generation is non-zero, as for every object of a real cluster that has a spec
+	return metav1.ObjectMeta{Namespace: s.NS, Name: s.Name, ResourceVersion: s.RV, Labels: copyMap(s.Labels), UID: types.UID(s.UID), Generation: 1}
 }
 
 func labelSel(m map[string]string) *metav1.LabelSelector {
